@@ -162,7 +162,7 @@ func Str(t *rapid.T, o TreeOpts, label string) []byte {
 		alpha = textAlphabet
 	}
 	c := rapid.IntRange(0, 199).Draw(t, label+"_cls")
-	if c == 137 && !o.NoBigStr { // (interior value: rapid favours the bounds of a range)
+	if (c == 137 || c == 138) && !o.NoBigStr { // (interior value: rapid favours the bounds of a range)
 		b := make([]byte, rapid.SampledFrom([]int{65, 255, 256, 32766, 32767, 32767, 32767}).Draw(t, label+"_biglen"))
 		f := rapid.Byte().Draw(t, label+"_fill")
 		f2 := f
